@@ -183,6 +183,9 @@ def run_impl(case):
                     net.log.append(("cb", i, did))
                 return cb
             calls = [sc.scpcall(1, 2, 3, 7, i, 0, 0, b"", mk_cb(i), float(e)) for i, e in enumerate(b["extra"])]
+            # far beyond the proved iteration bound 2*(commands*n_tries + datagrams + 1) (each iteration logs a
+            # bounded number of events): a burst still running then is stopped and reported as not terminating
+            net.limit_events = len(net.log) + 60 * (len(calls) * case["n_tries"] + len(net.queue) + 20)
             try:
                 conn.send_scp_burst(256, case["window"], iter(calls))
                 result = ["done"]
@@ -190,6 +193,8 @@ def run_impl(case):
                 result = ["timeout", e.packet.arg1]
             except sc.FatalReturnCodeError as e:
                 result = ["fatal", int(e.return_code), None if e.packet is None else e.packet.arg1]
+            except simnet.Runaway as e:
+                result = ["error", "DidNotTerminate", str(e)]
             except Exception as e:     # noqa: the property allows only the two documented errors
                 result = ["error", type(e).__name__, repr(e)[:120]]
             log = net.log[start:]
